@@ -4,6 +4,7 @@ import NomtModel.Core.TermHasher
 import NomtModel.Core.UpdateNoPanic
 import NomtModel.Core.Complete
 import NomtModel.Core.MultiUpdateSafe
+import NomtModel.Core.MultiUpdateRoot
 /-!
 # C18 — Proof verifiers are total: any input gets a verdict, never a panic
 
@@ -125,13 +126,12 @@ theorem T18_4_multi_lookups_total (mp : MultiProof Node VH) (root : Node) (v : V
 4. `terminal_contains` (587) and the terminal search never slice out of range for a key at least as long
    as every verified depth (256-bit keys).
 
-**Not proved** (held only by the differential run `core-mp`: no panic of the real
-`verify_multi_proof_update` and model agreement on every line, including malformed-but-accepted
-objects): `proof.bisections[bisection_index]` in range (620), `assert_eq!(common_siblings.start,
+The remaining sites — `proof.bisections[bisection_index]` in range (620), `assert_eq!(common_siblings.start,
 taken_siblings)` (623), the lower bound `taken ≤ end` of the slice at 662, `proof.inner[…]` index
 synchronisation (616, 724, 779, 780, 796), `pop_if_at_depth(cur_layer).unwrap()` (868) and the key
-slices inside `build_trie`; these need the pre-order layout invariant of `inner` / `bisections` and the
-stack discipline of `CommonSiblings`, which is not formalised. -/
+slices inside `build_trie` — need the pre-order layout invariant of `inner` / `bisections` and the stack
+discipline of `CommonSiblings`; they are discharged by `T18_5_multi_update_no_panic` below (this partial
+statement is kept because it needs no hypothesis on key lengths). -/
 theorem T18_5_partial_multi_update_sites (mp : MultiProof Node VH) (root : Node) (v : VerifiedMulti Node VH)
     (hv : verifyMulti H mp root = .ok v) :
     (∀ (i j : Nat) (t nt : VPath VH), v.inner[i]? = some t → v.inner[j]? = some nt → i ≠ j →
@@ -158,5 +158,93 @@ example : (match verifyMulti TH { paths := [{ terminal := .terminator [], depth 
               { terminal := .leaf [false, true] 1, depth := 0 }], siblings := [] } T.term with
            | .err .pathPrefixOfAnother => true
            | _ => false) = true := by decide
+
+
+/-- T18.5 **`verify_multi_proof_update` never panics on an accepted multi-proof.**  For EVERY proof
+object `mp` and root that `verify` accepted (`verifyMulti H mp root = ok v`, no trust assumption on the
+root) whose leaf keys are `L`-bit keys and whose terminator positions have at most `L` bits (`L = 256`
+in the code, where both hold by the types), and for ANY list of ops with `L`-bit keys — unsorted,
+duplicated, out of scope, empty — the mirror of `verify_update` (multi_proof.rs:688) returns a verdict:
+none of its panic sites is reachable:
+
+* `proof.inner[…]` (616, 724, 779, 780, 796) and `proof.bisections[bisection_index]` (620) are in range;
+* `assert_eq!(next_bisection.common_siblings.start, self.taken_siblings)` (623) holds;
+* every `siblings[taken..end]` of `CommonSiblings::extend` (662) has `taken ≤ end ≤ len`, and
+  `unique_siblings.end - start` (638), `depth - terminal_n` (640), `skip - (n + 1)` (838) do not underflow;
+* `common_siblings.pop_if_at_depth(cur_layer).unwrap()` (868) always finds the sibling: at every layer
+  either the pending left sibling or the proof-supplied sibling on the `CommonSiblings` stack is there;
+* `build_trie` never slices a key out of range (update.rs:163/203): the ops handed to a terminal are
+  distinct keys below it, and so is its leaf (the alignment T7.1);
+* the fuel bounds of the Lean loops (`advanceLoop`) are not exhausted.
+
+Proof: `verify_range`'s recursion is reified as a tree (`PTree`, `verifyRange_tree`) of which `inner`,
+`bisections`, `siblings` are the pre-order layout; `advance` for the first terminal of a range pushes the
+common siblings of the leftmost bisection chain (`advanceLoop_first`), the loop of
+`hash_and_compact_terminal` is simulated layer by layer (`hctLoop_sim`), a whole range by structural
+induction (`ingest_block`), the `for (key, op)` loop by an invariant (`updateStep_spec`). -/
+theorem T18_5_multi_update_no_panic (L : Nat) (mp : MultiProof Node VH) (root : Node) (v : VerifiedMulti Node VH)
+    (hv : verifyMulti H mp root = .ok v)
+    (hleaf : ∀ p ∈ mp.paths, ∀ k x, p.terminal = .leaf k x → k.length = L)
+    (hterm : ∀ p ∈ mp.paths, ∀ pos, p.terminal = .terminator pos → pos.length ≤ L)
+    (ops : List (Key × Option VH)) (hol : ∀ o ∈ ops, o.1.length = L) :
+    (multiVerifyUpdate H L v ops).isPanic = false :=
+  multiVerifyUpdate_no_panic_of_paths H L mp root v hv hleaf hterm ops hol
+
+/-- T18.5, the same with the length conditions stated on the verified object (`VerifiedMultiProof`):
+leaf keys of length `L`, no verified depth above `L`. -/
+theorem T18_5a_multi_update_no_panic_verified (L : Nat) (mp : MultiProof Node VH) (root : Node)
+    (v : VerifiedMulti Node VH) (hv : verifyMulti H mp root = .ok v)
+    (hleaf : ∀ vp ∈ v.inner, ∀ k x, vp.terminal = .leaf k x → k.length = L)
+    (hdepth : ∀ vp ∈ v.inner, vp.depth ≤ L)
+    (ops : List (Key × Option VH)) (hol : ∀ o ∈ ops, o.1.length = L) :
+    (multiVerifyUpdate H L v ops).isPanic = false :=
+  multiVerifyUpdate_no_panic H L mp root v hv hleaf hdepth ops hol
+
+/-- T18.5, under the verifier's trust assumption (as T18.2 for path proofs): when the root is the root of
+a canonical set of `L`-bit keys and `H` is sound, nothing at all has to be assumed about the proof object. -/
+theorem T18_5b_multi_update_no_panic_trusted_root (hs : H.Sound) (L : Nat) (S : List (Key × VH))
+    (hc : Canon L 0 S) (hlen : ∀ kv ∈ S, kv.1.length = L) (mp : MultiProof Node VH) (v : VerifiedMulti Node VH)
+    (hv : verifyMulti H mp (nodeAt H L 0 S) = .ok v)
+    (ops : List (Key × Option VH)) (hol : ∀ o ∈ ops, o.1.length = L) :
+    (multiVerifyUpdate H L v ops).isPanic = false :=
+  multiVerifyUpdate_no_panic_canon H hs L S hc hlen mp v hv ops hol
+
+/-! Non-vacuity of T18.5: the three-key set `exS` over the term hasher, the multi-proof of two of its
+paths built by `from_path_proofs`, accepted by `verify`; sorted in-scope ops, and unsorted / out-of-scope
+ops. -/
+def exMP : MultiProof T Nat :=
+  match fromPathProofs [proveSpec TH 2 exS [false, true], proveSpec TH 2 exS [true, false]] with
+  | .ok mp => mp
+  | _ => ⟨[], []⟩
+def exVM : VerifiedMulti T Nat :=
+  match verifyMulti TH exMP (nodeAt TH 2 0 exS) with
+  | .ok v => v
+  | _ => ⟨[], [], [], T.term⟩
+theorem exVM_ok : verifyMulti TH exMP (nodeAt TH 2 0 exS) = .ok exVM := by rfl
+
+example : (multiVerifyUpdate TH 2 exVM [([false, true], some 5), ([true, false], some 1), ([true, true], none)]).isPanic
+    = false := by
+  have e : exMP.paths.map (·.terminal) = [.leaf [false, true] 8, .leaf [true, true] 9] := by rfl
+  apply T18_5_multi_update_no_panic TH 2 exMP _ exVM exVM_ok
+  · intro p hp k x ht
+    have hp' : p.terminal ∈ exMP.paths.map (·.terminal) := List.mem_map_of_mem hp
+    rw [e, ht] at hp'
+    simp only [List.mem_cons, Terminal.leaf.injEq, List.not_mem_nil, or_false] at hp'
+    rcases hp' with ⟨rfl, _⟩ | ⟨rfl, _⟩ <;> rfl
+  · intro p hp pos ht
+    have hp' : p.terminal ∈ exMP.paths.map (·.terminal) := List.mem_map_of_mem hp
+    rw [e, ht] at hp'
+    simp at hp'
+  · decide
+/-- ops out of order and out of scope: an error verdict, obtained through the theorem -/
+example : (multiVerifyUpdate TH 2 exVM [([true, true], none), ([false, false], some 1)]).isPanic = false :=
+  T18_5b_multi_update_no_panic_trusted_root TH TH_sound 2 exS (by simp [exS, Canon, side]) (by simp [exS])
+    exMP exVM exVM_ok _ (by decide)
+/-- without acceptance by `verify` the panic sites are live: a hand-made "verified" object whose
+bisection list is empty although the first terminal's unique siblings do not start at `0` -/
+example : (multiVerifyUpdate TH 2
+    { inner := [{ terminal := .terminator [false], depth := 1, uStart := 1, uEnd := 2, route := [false] }],
+      bisections := [], siblings := [T.term, T.term], root := T.term }
+    [([false, false], some 1)]).isPanic = true := by decide
 
 end Nomt.C18
